@@ -130,6 +130,13 @@ func (_this *interfaceBuilder) BuildFromArray(ctx *Context, arrayType events.Arr
 			bits[i] = value[i/8]&(1<<(i&7)) != 0
 		}
 		dst.Set(reflect.ValueOf(bits))
+	case events.ArrayTypeUID:
+		const uidLength = 16
+		uids := make([]types.UID, len(value)/uidLength)
+		for i := range uids {
+			uids[i] = types.NewUID(value[i*uidLength:])
+		}
+		dst.Set(reflect.ValueOf(uids))
 	default:
 		panic(fmt.Errorf("TODO: Typed array support for %v", arrayType))
 	}
